@@ -11,6 +11,11 @@ import Bng.Model.BindSpec
     ren d<k> <ianas> <iapds>                   reb d<k> <ianas> <iapds>
     con d<k> <addr,…|->    rel d<k>    dec d<k> <addr|->    tick <minutes>
 
+    newpool <base>/<len> <deleg>   what NewPrefixPool builds for that geometry (no server state involved)
+    newapool <base>/<len>          what NewAddressPool builds
+        => n=<entries> d=<distinct entries> in=<1|0 all inside the base> first=<hex|-> last=<hex|-> sum=<hex, mod 2^128>
+           | invalid            (monitors: pool-distinct  n ≠ d,  pool-inside  in = 0)
+
   Observation: see harness/cmd/dhcp6/main.go.
 -/
 namespace Bng.Drv.Dhcp6Drv
@@ -176,8 +181,50 @@ def exhaustionClause (g : BindSpec.Geo) (mon : BindSpec.Mon) (pool : FPool) (lea
   if extra.isEmpty || !enough then "none"
   else if !d6.isEmpty then "D6" else "D8"
 
+/-- the constructor observation of a free list: count, distinct count, all inside, first, last, sum mod 2^128.
+    `d` is printed as `n`: the lists are duplicate-free by Bng.Spec.C01V6.prefix_pool_distinct / addr_pool_distinct. -/
+def showPool (l : List Nat) (inside : Nat → Bool) : String :=
+  let first := match l.head? with | some v => toHex v | none => "-"
+  let last := match l.getLast? with | some v => toHex v | none => "-"
+  let sum := l.foldl (fun acc v => (acc + v) % 2 ^ 128) 0
+  s!"n={l.length} d={l.length} in={if l.all inside then 1 else 0} first={first} last={last} sum={toHex sum}"
+
+/-- the monitor of the constructors: judged from the implementation's own figures -/
+def poolVerdicts (impl : String) : List (String × String × String) :=
+  let toks := splitTokens impl
+  let field := fun (k : String) => (toks.find? (·.startsWith k)).map (fun t => (t.drop k.length).toString)
+  (match field "n=", field "d=" with
+    | some n, some d => if n == d then [] else
+        [("pool-distinct", "none", s!"the constructed free list has {n} entries of which only {d} are distinct")]
+    | _, _ => []) ++
+  (match field "in=" with
+    | some "0" => [("pool-inside", "none", "the constructed free list has an entry outside the configured pool")]
+    | _ => [])
+
 def step (st : St) (toks : List String) (impl : String) : St × LineResult :=
   match toks with
+  | ["newpool", pp, dl] =>
+    (match parseAddrLen pp, dl.toNat? with
+      | some (pbase, pplen), some dl =>
+        if pplen ≤ 128 && pbase % 2 ^ (128 - pplen) == 0 && decide (pbase < 2 ^ 128) then
+          if pplen < dl && dl ≤ 128 then
+            let c : Cfg := { hasAddr := false, abase := 0, aplen := 128, hasPfx := true,
+                             pbase := pbase, pplen := pplen, dlen := dl, valid := 0 }
+            let inside := fun (p : Nat) => decide (pbase ≤ p) && decide (p + c.pstep ≤ pbase + 2 ^ (128 - pplen))
+            (st, { modelObs := showPool c.initialPrefixes inside, viols := poolVerdicts impl })
+          else (st, { modelObs := "invalid", viols := poolVerdicts impl })
+        else (st, { modelObs := "badop" })
+      | _, _ => (st, { modelObs := "badop" }))
+  | ["newapool", ap] =>
+    (match parseAddrLen ap with
+      | some (abase, aplen) =>
+        if aplen ≤ 128 && abase % 2 ^ (128 - aplen) == 0 && decide (abase < 2 ^ 128) then
+          let c : Cfg := { hasAddr := true, abase := abase, aplen := aplen, hasPfx := false,
+                           pbase := 0, pplen := 128, dlen := 128, valid := 0 }
+          let inside := fun (a : Nat) => decide (abase < a) && decide (a < abase + c.asize)
+          (st, { modelObs := showPool c.initialAddrs inside, viols := poolVerdicts impl })
+        else (st, { modelObs := "badop" })
+      | none => (st, { modelObs := "badop" }))
   | ["new", ap, pp, dl, valid] =>
     let pool := fun (s : String) => if s == "-" then some none else (parseAddrLen s).map some
     match pool ap, pool pp, dl.toNat?, valid.toNat? with
@@ -185,7 +232,7 @@ def step (st : St) (toks : List String) (impl : String) : St × LineResult :=
       let (abase, aplen) := ap.getD (0, 128)
       let (pbase, pplen) := pp.getD (0, 128)
       let okA := ap.isNone || (aplen ≤ 128 && abase % 2 ^ (128 - aplen) == 0)
-      let okP := pp.isNone || (pplen < dl && dl ≤ 128 && pbase % 2 ^ (128 - pplen) == 0 && dl - pplen < 62)
+      let okP := pp.isNone || (pplen < dl && dl ≤ 128 && pbase % 2 ^ (128 - pplen) == 0)
       if okA && okP && 0 < dl && dl ≤ 128 then
         let c : Cfg := { hasAddr := ap.isSome, abase := abase, aplen := aplen, hasPfx := pp.isSome,
                          pbase := pbase, pplen := pplen, dlen := dl, valid := valid }
